@@ -136,6 +136,17 @@ def gen_case(rng, uid):
             pf = rng.choice(["components", None])
             for i_, inst_ in enumerate(instances):
                 inst_["name"], inst_["prefix"] = f"m{uid}{['1', '10', '11'][i_]}", pf
+    if owner != "robot" and rng.random() < 0.12:
+        # `speed` on the component `speed_controller`, `auto` on an autonomous mode: the attribute's name is the beginning of
+        # the owner's name or of the owner kind's table name - with a subtable between them in the key
+        t_ = rng.choice(tun)
+        nm_ = instances[0]["name"]
+        pool_ = [nm_[:k_] for k_ in range(1, len(nm_))] + (["comp", "c", "components"] if instances[0]["prefix"] == "components" else
+                                                         ["auto", "autonomous"] if instances[0]["prefix"] == "autonomous" else [])
+        t_["attr"] = rng.choice(pool_)
+        t_["attr_is_prefix_of_owner"] = True
+        if t_["subtable"] is None:
+            t_["subtable"] = rng.choice(["sub", "cfg"])
     ops = []
     counter = 1
     for _ in range(rng.choice([10, 30, 80])):
@@ -418,6 +429,8 @@ def _run_case(acc, case):
                     acc.ev("empty-hinted")
                 if t["subtable"]:
                     acc.ev("subtable")
+                if t.get("attr_is_prefix_of_owner"):
+                    acc.ev("attribute-name-begins-the-owner-name-or-table")
                 if t.get("hint_on_base") and t["spelling"] == 2 and t["kind"].startswith(("hintfloat", "empty:")):
                     acc.ev("type-hint-on-base-class")
                 if case.get("truth"):
